@@ -1,5 +1,5 @@
 /-
-C15 — the compressing side of `zstd.c: process_data` (with the patch): libzstd's streaming convention
+C15 — the compressing side of `zstd.c: process_data`: libzstd's streaming convention
 (`ZSTD_compressStream2`: the return value is 0 exactly when, under `ZSTD_e_end`, the frame is complete and flushed)
 ⇒ the loop with its `pending` flag is a codec that meets `EncContract`.
 -/
